@@ -442,6 +442,13 @@ def run(ctx):
         used = {k for k, cf in collectors.items() if any(n.get("callee") == cf.id for _, _, e in parse.roots() for n in elem_calls(e))}
         ctx.check(used == set(kind_maps), "R13.4", parse, "arguments-built-from-all-kinds", "the result object is built without %s" % sorted(set(kind_maps) - used), parse)
 
+    # ---- R13.10: a refused declaration is not half made
+    ctx.rule("R13.10", "the declaring functions (group::option / multi_option / toggle, the short_name / env / default setters) write no member on a path that can still reach their own raise: "
+                       "a re-declaration or a short name that is refused with parser_error leaves no entry, letter or default behind")
+    from .common import rule_validate_before_commit
+    parse_reach = callgraph(ctx).reachable([f0.id for f0 in prog.find(NS + "parser::parse")])
+    rule_validate_before_commit(ctx, "R13.10", lambda g: "/options/" in g.file and g.id not in parse_reach,
+                                "the caller catches the developer error and carries on - with a ghost entry that is offered tokens first, a letter the usage text shows but matching never accepts, or a default that was never declared", minimum=6)
     # ---- R13.6: the name the maps are keyed by IS the option's name: base stores the declared string verbatim
     ctx.rule("R13.6", "base::name_ is the declared name verbatim (the uniqueness check keys by the declared string, matching uses name())")
     bct = [f for f in prog.methods_of(NS + "base") if f.kind == "ctor" and f.has_cfg and len(f.params) >= 1 and not f.flags.get("copy_ctor") and not f.flags.get("move_ctor")]
